@@ -176,6 +176,7 @@ func Run(c *vk.Ctx) {
 	}
 	if c.Shard == 0 {
 		urlRoundTrip(c)
+		foreignFiles(c, func(s string) string { return cfgRaw[s] })
 	}
 	histories(c, depthB, func(s string) string { return cfgRaw[s] })
 	var widx int64
@@ -589,4 +590,83 @@ func trim(ch []int) []int {
 		n--
 	}
 	return ch[:n]
+}
+
+// ---------------------------------------------------------------------------
+// (e) a settings file pprof did not write
+
+// foreignContents are settings files as another program, an older version or a
+// crash of something else may have left them.
+var foreignContents = []string{
+	"", "{", "garbage", "[]", "null", "7", `{"configs":null}`, `{"configs":[]}`, `{"configs":{}}`, `{"configs":[null]}`,
+	`{"configs":[{"name":"B","focus":"a"}],"other":1}`, `{"configs":[{"name":"A"}]}`, `{"configs":[{"name":"A"},{"name":"A","focus":"z"}]}`,
+	`{"configs":[{"name":"B","nodecount":"many"}]}`, "\x00\x01\x02",
+}
+
+// foreignFiles: every operation of the alphabet on every foreign settings file.
+// The operation either reports an error and leaves the file byte for byte as it
+// was, or succeeds and leaves a readable file in which the names are those the
+// reference list gives (a saved entry holding the saved configuration); it never
+// panics.
+func foreignFiles(c *vk.Ctx, cfgRaw func(string) string) {
+	for _, content := range foreignContents {
+		for _, o := range alphabet {
+			c.Eval()
+			resetFile()
+			os.MkdirAll(filepath.Dir(fname()), 0700)
+			os.WriteFile(fname(), []byte(content), 0644)
+			w := witness{Op: o.String(), Value: fmt.Sprintf("file contents %q", content)}
+			before, _, berr := readState()
+			var err error
+			pan := func() (p any) {
+				defer func() { p = recover() }()
+				err = apply(o)
+				return nil
+			}()
+			if pan != nil {
+				c.Violationf("foreign-file/panic", w, "%v", pan)
+				continue
+			}
+			after := fileBytes()
+			if err != nil {
+				if after != content {
+					c.Violationf("foreign-file/error-but-file-changed", w, "error %v, file now %.200q", err, after)
+				}
+				c.Outcome("foreign-file/error")
+				continue
+			}
+			got, _, rerr := readState()
+			if rerr != nil {
+				c.Violationf("foreign-file/unreadable-after-success", w, "%v: %.200q", rerr, after)
+				continue
+			}
+			c.Outcome("foreign-file/ok")
+			if berr != nil {
+				continue // contents the reference reader cannot list: success must only leave a readable file
+			}
+			want, _ := modelApply(before, o, cfgRaw)
+			var wn, gn []string
+			for _, e := range want {
+				wn = append(wn, e.Name)
+			}
+			for _, e := range got {
+				gn = append(gn, e.Name)
+			}
+			if fmt.Sprint(wn) != fmt.Sprint(gn) {
+				c.Violationf("foreign-file/names", w, "names after the operation %v, expected %v", gn, wn)
+			}
+			if o.Kind == "save" {
+				n := 0
+				for _, e := range got {
+					if e.Name == o.Name && e.Raw == cfgRaw(o.Cfg) {
+						n++
+					}
+				}
+				if n == 0 {
+					c.Violationf("foreign-file/saved-entry", w, "the saved configuration is not in the file: %v", got)
+				}
+			}
+			c.Nontrivial("foreign:" + content + o.String())
+		}
+	}
 }
